@@ -872,6 +872,8 @@ class LoadConst(DataflowOp):
         return tys.FunctionType(input=[], output=[self.type_])
 
     def port_kind(self, port: InPort | OutPort) -> tys.Kind:
+        if port.offset == -1:
+            return tys.OrderKind()
         match port:
             case InPort(_, 0):
                 return tys.ConstKind(self.type_)
@@ -1215,6 +1217,8 @@ class Call(_CallOrLoad, Op):
         return len(self.instantiation.input)
 
     def port_kind(self, port: InPort | OutPort) -> tys.Kind:
+        if port.offset == -1:
+            return tys.OrderKind()
         match port:
             case InPort(_, offset) if offset == self._function_port_offset():
                 return tys.FunctionKind(self.signature)
@@ -1299,6 +1303,8 @@ class LoadFunc(_CallOrLoad, DataflowOp):
         return tys.FunctionType(input=[], output=[self.instantiation])
 
     def port_kind(self, port: InPort | OutPort) -> tys.Kind:
+        if port.offset == -1:
+            return tys.OrderKind()
         match port:
             case InPort(_, 0):
                 return tys.FunctionKind(self.signature)
